@@ -38,10 +38,11 @@ def check (async : Bool) (pre impl : List String) : Option (List String × Bool)
   let fuel := dataRem.length + 2
   -- the specification: consecutive segments of the connection stream (no chunking, no schedule, no Pending in it)
   let (sreqs, sterm) := parseConn n deframeLine lenOf fuel dataRem
-  -- the abstract model of the loop, run with (the positive part of) the same destination schedule, Pendings deleted
+  -- the abstract model of the loop (`serveZ`, the function `C07.serveZ_spec` is about), run with the same destination schedule, Pendings deleted
   let chunkActs := acts.filter fun a => match a with | .chunk _ => true | _ => false
-  let (mreqs, mterm) := serve deframeLine lenOf fuel { size := n, ri := 0, q := [] } { rem := dataRem, acts := chunkActs }
-    ((dests.filter (· > 0)).map (· - 1))
+  -- the harness cycles through `dests` (zero-length destinations included), restarting for every request
+  let sched := if dests.isEmpty then [8192] else (List.replicate (dataRem.length + 4) dests).flatten
+  let (mreqs, mterm) := serveZ deframeLine lenOf fuel { size := n, ri := 0, q := [] } { rem := dataRem, acts := chunkActs } sched
   let mut v : List String := []
   if showReqs mreqs != ireqs || DrvRF.resOfSpec mterm != iterm then v := "DRIFT" :: "DIFF C07" :: v
   if showReqs sreqs != ireqs || DrvRF.resOfSpec sterm != iterm || iwritten != okBytes sreqs.length then v := "UNSAT C07" :: v
